@@ -34,7 +34,7 @@ def run(F, ctx):
                 p2 = f.path(m.target, [p.bb for p in pubs], stop={c.bb for c in n2} | set(f.error_blocks())) if m.target is not None else None
                 ok = ok and p1 is None and p2 is None
             # same relation
-            rel = f.local_named("relation")
+            rel = f.need_local("relation")
             if rel is not None:
                 d = f.derive({rel}, through_calls=True)
                 ok = ok and all(op_local(c.args[1]) in d for c in n1 + n2)
